@@ -152,6 +152,10 @@ SumN(m, o) == IF OL(m, o) = 0 THEN 1 ELSE SumK(m, o, NBlk(m, o))
 PacketChecksObj(m, m1, p, t) ==
   LET o == p.o IN
   IF o = 0 THEN << <<"C15", "packet-with-toi-of-no-added-object", FALSE, p.toix>> >>
+  ELSE IF Obj(m, o).L < 0 THEN
+    \* transfer length of 2^31 or more (limit cases, fake stream): only the announced length is judged
+    << <<"C01", "fti-does-not-carry-the-object-parameters",
+          IF Obj(m, o).fti THEN Has(p.fti, "L") /\ p.fti.Lx = Obj(m, o).Lx /\ p.fti.E = OE(m, o) ELSE TRUE, <<o, p.fti>> >> >>
   ELSE
   LET c    == m1.cur[o]
       L    == OL(m, o)  E == OE(m, o)  B == OB(m, o)
@@ -272,7 +276,7 @@ ReadBudget(m) ==
 
 StepPacketObj(m1, p, t) ==
   LET o == p.o c == m1.cur[o] IN
-  IF o = 0 THEN m1 ELSE
+  IF o = 0 \/ m1.objs[o].L < 0 THEN m1 ELSE
   [m1 EXCEPT !.cur[o] = [c EXCEPT !.sent = @ \cup {<<p.sbn, p.esi>>},
                                    !.last = [b \in DOMAIN @ \cup {p.sbn} |-> IF b = p.sbn THEN p.esi ELSE @[b]],
                                    !.n = @ + 1, !.bseen = @ \/ p.B,
@@ -327,8 +331,9 @@ FileChecks(m, f, inst, tc) ==
   IF o = 0 THEN << <<"C10", "fdt-lists-unknown-toi", FALSE, f.toi>> >> ELSE
   LET ob == Obj(m, o) oti == FileOti(f, inst) IN
   << <<"C10", "content-location-altered", f.loc = ob.loc, <<o, f.loc, ob.loc>> >>,
-    <<"C10", "content-length-altered", f.clen = ob.clen, <<o, f.clen>> >>,
-    <<"C10", "transfer-length-altered", f.tlen = ob.L, <<o, f.tlen, ob.L>> >>,
+    \* lengths of 2^31 and more are compared as hexadecimal strings (TLC integers are 32 bits wide)
+    <<"C10", "content-length-altered", IF ob.clen >= 0 THEN f.clen = ob.clen ELSE f.clenx = ob.clenx, <<o, f.clen, f.clenx>> >>,
+    <<"C10", "transfer-length-altered", IF ob.L >= 0 THEN f.tlen = ob.L ELSE f.tlenx = ob.Lx, <<o, f.tlen, ob.L, f.tlenx>> >>,
     <<"C10", "content-type-altered", f.type = ob.type, <<o, f.type>> >>,
     <<"C10", "content-encoding-altered", f.cenc = ob.cenc, <<o, f.cenc, ob.cenc>> >>,
     <<"C10", "content-md5-altered", f.md5 = ob.md5, <<o, f.md5, ob.md5>> >>,
@@ -338,7 +343,7 @@ FileChecks(m, f, inst, tc) ==
     <<"C10", "fec-oti-altered",
         /\ Has(oti, "enc") /\ oti.enc = ob.scheme /\ oti.E = ob.E /\ oti.B = ob.B
         /\ (ob.scheme \in {5, 129} => oti.maxn = ob.B + ob.par)
-        /\ (ob.scheme \in {1, 6} => oti.Z = N(ob.L, ob.E, ob.B) \/ ob.L = 0), <<o, oti>> >> >>
+        /\ (ob.scheme \in {1, 6} => ob.L <= 0 \/ oti.Z = N(ob.L, ob.E, ob.B)), <<o, oti>> >> >>
 
 FdtChecks(m, e) ==
   IF ~e.ok THEN << <<"C10", "fdt-instance-is-not-well-formed-xml", FALSE, e.id>> >> ELSE
@@ -376,10 +381,26 @@ StepFdt(m, e) ==
 StepAdd(m, e) == IF e.res # "ok" THEN m
                  ELSE [m EXCEPT !.live = @ \cup {e.o}, !.added = Append(@, e.o)]
 
+RECURSIVE StripZ(_)
+StripZ(b) == IF b = <<>> THEN <<>> ELSE IF b[1] = 0 THEN StripZ(Tail(b)) ELSE b
+\* width of the transfer-length field of EXT_FTI: 40 bits for Raptor / RaptorQ, 48 bits otherwise
+WireLenBytes(sc) == IF sc \in {1, 6} THEN 5 ELSE 6
 AddChecks(m, e) ==
   IF e.res = "panic" THEN << <<"C14", "sender-panic", FALSE, <<"add", e.o, e.m>> >> >>
   ELSE IF e.res = "err" THEN <<>>
-  ELSE << <<"C15", "allocated-toi-is-zero", e.toix # "0", e.o>>,
+  ELSE << <<"C01", "accepted-an-object-that-the-wire-format-cannot-carry",
+              ~Has(e, "Ld") \/ Len(StripZ(e.Ld)) <= WireLenBytes(Obj(m, e.o).scheme), <<e.o, IF Has(e, "Ld") THEN e.Ld ELSE <<>> >> >>,
+         \* the largest source block must be within what the FEC scheme can encode: RFC 5053 K <= 8192, RFC 6330
+         \* K' <= 56403, Reed-Solomon over GF(2^8): at most 256 symbols (source and parity) per block
+         <<"C01", "accepted-an-object-whose-blocks-exceed-the-limit-of-the-fec-scheme",
+              LET ob == Obj(m, e.o) IN
+              ob.L <= 0 \/ LET al == ALarge(ob.L, ob.E, ob.B) IN
+                           CASE ob.scheme = 1 -> al <= 8192
+                             [] ob.scheme = 6 -> al <= 56403
+                             [] ob.scheme \in {5, 129} -> al + ob.par <= 256
+                             [] OTHER -> TRUE,
+              <<e.o, Obj(m, e.o).scheme, Obj(m, e.o).L, Obj(m, e.o).E, Obj(m, e.o).B>> >>,
+         <<"C15", "allocated-toi-is-zero", e.toix # "0", e.o>>,
          <<"C12", "add-after-set-complete-accepted", ~m.complete, e.o>> >>
        \o ProjChecks(StepAdd(m, e), e.st)
 PublishChecks(m, e) ==
